@@ -390,7 +390,7 @@ func c04Jobs(tier string) []*SeqJob {
 		return guard(func() (string, string) { a, b, _ := runProgram(r, prog, path, "m"); return a, b })
 	}
 	_ = time.Now
-	return []*SeqJob{job, c04SharedRootJob(tier)}
+	return []*SeqJob{job, c04SharedRootJob(tier), c04MapReuseJob(tier)}
 }
 
 // c04SharedRootJob: all programs of an alphabet of strings that a sanitizer
@@ -502,6 +502,115 @@ func c04SharedRootJob(tier string) *SeqJob {
 		fmt.Sscan(ops[0], &cached)
 		fmt.Sscan(ops[2], &order)
 		return guard(func() (string, string) { c, d, _ := run(cached, ops[1], order); return c, d })
+	}
+	return j
+}
+
+// c04MapReuseJob: the application keeps ONE map and edits it between calls (a request-scoped tag map that is refilled):
+// Tagged(m) with contents A, then m is emptied and refilled with B, Tagged(m) again (the same map object, new
+// contents) and Tagged(copy of B). For every ordered pair (A, B) of an alphabet of tag maps, under three parents (the
+// root, a subscope, a tagged scope), on the plain and the cached path: what is recorded through the first scope
+// arrives under the parent's tags overlaid by A, what is recorded through the other two under the parent's overlaid by
+// B - the library remembers nothing about a caller's map beyond the call.
+func c04MapReuseJob(tier string) *SeqJob {
+	maps := []map[string]string{{}, {"k": "1"}, {"k": "2"}, {"k": ""}, {"j": "1"}, {"k": "1", "j": "1"}, {"k": "2", "j": ""}, {"k!": "v?"}}
+	parents := [][]progOp{{}, {{sub: "a"}}, {{tag: true, tags: map[string]string{"j": "1"}}}}
+	alnum := tally.ValidCharacters{Ranges: tally.AlphanumericRange, Characters: tally.UnderscoreCharacters}
+	sanA := &tally.SanitizeOptions{NameCharacters: alnum, KeyCharacters: alnum, ValueCharacters: alnum, ReplacementCharacter: '_'}
+	cfgs := []rootCfg{{prefix: "p", tags: nil, sanName: "none"}, {prefix: "", tags: map[string]string{"k": "0"}, sanName: "none"}, {prefix: "p", tags: map[string]string{"k": "0"}, san: sanA, sanName: "alnum_"}}
+	run := func(ci, pi, ai, bi int, cached bool) (string, string, int) {
+		c := cfgs[ci]
+		rec := &Recorder{NoPoints: true}
+		opts := tally.ScopeOptions{Prefix: c.prefix, Separator: c.sep, SanitizeOptions: c.san, OmitCardinalityMetrics: true, Tags: cloneTags(c.tags)}
+		if cached {
+			opts.CachedReporter = cachedRec{rec}
+		} else {
+			opts.Reporter = plainRec{rec}
+		}
+		root, _ := tally.VerifNewRootScope(opts, 0, 1)
+		parent := root
+		for _, op := range parents[pi] {
+			if op.tag {
+				parent = parent.Tagged(cloneTags(op.tags))
+			} else {
+				parent = parent.SubScope(op.sub)
+			}
+		}
+		a, b := maps[ai], maps[bi]
+		m := cloneTags(a)
+		s1 := parent.Tagged(m)
+		for k := range m {
+			delete(m, k)
+		}
+		for k, v := range b {
+			m[k] = v
+		}
+		s2 := parent.Tagged(m)
+		s3 := parent.Tagged(cloneTags(b))
+		s1.Counter("x").Inc(1)
+		s2.Counter("x").Inc(10)
+		s3.Counter("x").Inc(100)
+		tally.VerifReportOnce(root)
+		progA := append(append([]progOp{}, parents[pi]...), progOp{tag: true, tags: a})
+		progB := append(append([]progOp{}, parents[pi]...), progOp{tag: true, tags: b})
+		prefA, tagsA := refIdentity(c, progA)
+		_, tagsB := refIdentity(c, progB)
+		name := refFullName(c, prefA, "x")
+		want := map[string]int64{}
+		want[name+tagString(tagsA)] += 1
+		want[name+tagString(tagsB)] += 110
+		got := sumCounters(rec.Log, 0, len(rec.Log))
+		where := fmt.Sprintf("[%s, parent %v, %s path] Tagged(m=%s); m refilled with %s; Tagged(m); Tagged(copy)", c, parents[pi], map[bool]string{true: "cached", false: "plain"}[cached], tagString(a), tagString(b))
+		for id, w := range want {
+			if got[id] != w {
+				return "wrong-tags", fmt.Sprintf("%s: %s delivered %d, want %d (all deliveries: %v)", where, id, got[id], w, got), 6
+			}
+		}
+		for id, g := range got {
+			if want[id] != g {
+				return "wrong-tags", fmt.Sprintf("%s: %s delivered %d, want %d (all deliveries: %v)", where, id, g, want[id], got), 6
+			}
+		}
+		return "", "", 6
+	}
+	j := &SeqJob{Property: "C04", Name: "one-caller-map-refilled-between-calls"}
+	j.Run = func(ctx *SeqCtx) {
+		for ci := range cfgs {
+			for pi := range parents {
+				for ai := range maps {
+					for bi := range maps {
+						for _, cached := range []bool{false, true} {
+							ci, pi, ai, bi, cached := ci, pi, ai, bi, cached
+							steps := 0
+							cl, det := guard(func() (string, string) { x, y, s := run(ci, pi, ai, bi, cached); steps = s; return x, y })
+							ops := []string{fmt.Sprint(ci), fmt.Sprint(pi), fmt.Sprint(ai), fmt.Sprint(bi), fmt.Sprint(cached)}
+							ctx.Case(steps, true, func() string { return fmt.Sprint(ops) })
+							ctx.State(fmt.Sprint(ops))
+							if cl != "" {
+								ctx.Fail(cl, det, ops)
+								if ctx.viol != nil {
+									return
+								}
+							}
+						}
+					}
+				}
+			}
+		}
+		for _, m := range maps {
+			ctx.Alphabet("map " + tagString(m))
+		}
+		ctx.DepthDone(2)
+	}
+	j.Replay = func(ops []string) (string, string) {
+		var ci, pi, ai, bi int
+		var cached bool
+		fmt.Sscan(ops[0], &ci)
+		fmt.Sscan(ops[1], &pi)
+		fmt.Sscan(ops[2], &ai)
+		fmt.Sscan(ops[3], &bi)
+		fmt.Sscan(ops[4], &cached)
+		return guard(func() (string, string) { x, y, _ := run(ci, pi, ai, bi, cached); return x, y })
 	}
 	return j
 }
